@@ -151,6 +151,12 @@ func c13(args []string) int {
 		}
 		r := rng.New(f.Seed, 0xc13, uint64(i))
 		burst := uint32(r.Intn(6))
+		// every eighth history: a budget around 2^31 and 2^32 ("unlimited within the period"); the counter comparison
+		// must not depend on the sign bit of a 32-bit difference (round 15)
+		if rb := rng.New(f.Seed, 0xc13b, uint64(i)); rb.Chance(1, 8) {
+			burst = []uint32{1<<31 - 1, 1 << 31, 1<<31 + 1, 1<<31 + 2, 3 << 30, 1<<32 - 2, 1<<32 - 1}[rb.Intn(7)]
+			out.Count("random_histories_with_burst_at_or_above_2^31-1", 1)
+		}
 		period := time.Duration([]int64{0, 1, 7, 1000, 1 << 40}[r.Intn(5)])
 		nv := r.Intn(5)
 		next, rnext, nname := mkNext(nv, period+1)
